@@ -14,7 +14,7 @@ RULE = ('Hypothesis-generated operation histories on a bare Environment: schedul
         'the reference model. Non-trivial = at least one dispatch was chosen among >=2 live events with equal '
         'time and different priority AND at least one event was inserted from inside a running action (for the '
         'second phase - the same dispatch predicate applied to generated multi-device E3 models - at least one '
-        'priority tie among real device events); '
+        'priority tie among real device events). A float-noise phase repeats the histories with non-dyadic times (0.1, 0.3, 1.1, 7.3-style values, 1/3) and events that are due in the very instant their asset is paused; there the oracle is restricted to what must hold under any rounding: the clock never decreases, the dispatched event has the smallest time / highest priority of the live queue, run(d) ends at the float t0+d; '
         'distinct = SHA-1 of the canonical case JSON.')
 ASSUMPTIONS = ['Environment._events holds exactly the pending events (anchor of C01); cancelled events are not live',
                'user events use priorities above EventType.TERMINATE (the documented custom-priority range)',
@@ -28,10 +28,12 @@ def phases(tier):
     if tier == 'quick':
         return [Search('hypothesis-histories', lambda: e1gen.cases(40), 1500, shards=4, tag='histories'),
                 Search('device-models', lambda: e3gen.specs(MIX), 100, shards=4, tag='models'),
-                Machine('stateful-machine', envmachine.env_machine(('C01',), summarise), 250, 40, shards=4)]
+                Machine('stateful-machine', envmachine.env_machine(('C01',), summarise), 250, 40, shards=4),
+                Search('float-noise-histories', lambda: e1gen.noise_cases(10), 1500, shards=4, tag='noise')]
     return [Search('hypothesis-histories', lambda: e1gen.cases(80), 3000, shards=16, tag='histories'),
             Search('device-models', lambda: e3gen.specs(MIX), 800, shards=16, tag='models'),
-            Machine('stateful-machine', envmachine.env_machine(('C01',), summarise), 1500, 80, shards=16)]
+            Machine('stateful-machine', envmachine.env_machine(('C01',), summarise), 1500, 80, shards=16),
+            Search('float-noise-histories', lambda: e1gen.noise_cases(16), 6000, shards=16, tag='noise')]
 
 
 def on_repo_exception(case, e):
